@@ -1,3 +1,727 @@
-//! C09 — bounded checks (to be written)
-use crate::ctx::Ctx;
-pub fn run(_ctx: &mut Ctx) {}
+//! C09 — quotienting a lax diagram merges exactly the unified nodes, atomically.
+//!
+//! Oracle (plain loops, from the statement): the classes of the smallest equivalence relation
+//! containing the recorded pairs are computed by label propagation to a fixpoint (no union-find);
+//! the call must fail iff some class carries two node labels.  On success the RETURNED map q is
+//! validated on its own (domain, codomain, surjective, q[i]==q[j] <=> same class — any numbering of
+//! the classes is accepted) and then the whole after-state is recomputed from (before-state, q):
+//! every reference replaced by its image, edges/labels/order untouched, new node q[i] labelled like
+//! i, no pending pairs.  On failure the after-state must equal the before-state field by field
+//! (including the pending pairs).  Small cases are additionally compared up to isomorphism with
+//! model::quotient.
+use crate::ctx::{guard, Ctx, Rng};
+use crate::model::*;
+use open_hypergraphs::lax;
+use open_hypergraphs::lax::NodeId;
+use serde_json::{json, Value};
+
+type Check = fn(&mut Ctx, &Value);
+const CHECKS: &[(&str, Check)] = &[("quotient_open", chk_open), ("quotient_hyper", chk_hyper), ("sequence", chk_sequence)];
+
+use std::sync::atomic::{AtomicUsize, Ordering};
+static N_OK: AtomicUsize = AtomicUsize::new(0);
+static N_ERR: AtomicUsize = AtomicUsize::new(0);
+
+type Pairs = Vec<(usize, usize)>;
+type LH = lax::Hypergraph<u8, u8>;
+
+fn pairs_from_json(v: &Value) -> Option<Pairs> {
+    v.as_array()?
+        .iter()
+        .map(|p| {
+            let a = p.as_array()?;
+            if a.len() != 2 {
+                return None;
+            }
+            Some((a[0].as_u64()? as usize, a[1].as_u64()? as usize))
+        })
+        .collect()
+}
+fn pairs_json(p: &Pairs) -> Value {
+    json!(p.iter().map(|&(a, b)| vec![a, b]).collect::<Vec<_>>())
+}
+fn state_json(m: &M, p: &Pairs) -> Value {
+    json!({"m": m.json(), "pending": pairs_json(p)})
+}
+
+/// classes of the generated equivalence relation: class id = least member; plain fixpoint iteration
+fn own_classes(n: usize, pairs: &Pairs) -> Vec<usize> {
+    let mut c: Vec<usize> = (0..n).collect();
+    loop {
+        let mut changed = false;
+        for &(a, b) in pairs {
+            let m = c[a].min(c[b]);
+            if c[a] != m {
+                c[a] = m;
+                changed = true;
+            }
+            if c[b] != m {
+                c[b] = m;
+                changed = true;
+            }
+        }
+        // propagate: everybody takes the id of its id
+        for i in 0..n {
+            if c[c[i]] != c[i] {
+                c[i] = c[c[i]];
+                changed = true;
+            }
+        }
+        if !changed {
+            return c;
+        }
+    }
+}
+
+/// does some class carry two different labels?
+fn conflict(w: &[u8], cls: &[usize]) -> bool {
+    (0..w.len()).any(|i| w[cls[i]] != w[i])
+}
+
+fn build(m: &M, pairs: &Pairs) -> LOH {
+    let mut f = m.to_lax();
+    for &(a, b) in pairs {
+        f.unify(NodeId(a), NodeId(b));
+    }
+    f
+}
+
+/// Evaluate every clause for ONE quotient call.
+/// before = plain state before the call, `res` = guarded result (Ok(q table,target) / Err(q)),
+/// after = plain state read back from the real object after the call.
+/// returns Some(true) if the call succeeded and everything held, Some(false) if it failed (as it
+/// should) and everything held, None if some clause was violated.
+fn judge(
+    ctx: &mut Ctx,
+    check: &str,
+    input: &Value,
+    before: &(M, Pairs),
+    res: &Result<Result<(Vec<usize>, usize), (Vec<usize>, usize)>, String>,
+    after: &(M, Pairs),
+    open: bool,
+) -> Option<bool> {
+    let (m0, p0) = before;
+    let (m1, p1) = after;
+    let n = m0.w.len();
+    let cls = own_classes(n, p0);
+    let bad = conflict(&m0.w, &cls);
+    let mut ok = true;
+    match res {
+        Ok(Ok(_)) => {
+            N_OK.fetch_add(1, Ordering::Relaxed);
+        }
+        Ok(Err(_)) => {
+            N_ERR.fetch_add(1, Ordering::Relaxed);
+        }
+        _ => {}
+    }
+    match res {
+        Err(p) => {
+            ctx.fail(check, "C09.no-panic", input, json!(format!("panic: {}", p)), json!(if bad { "Err" } else { "Ok" }));
+            return None;
+        }
+        Ok(Err(_)) => {
+            if !bad {
+                ctx.fail(check, "C09.fails-iff-conflict", input, json!("Err"), json!("Ok: every class carries one label"));
+                ok = false;
+            }
+            // atomic: nothing changed, field by field
+            if m1.w != m0.w {
+                ok &= ctx.expect(false, check, "C09.atomic-nodes", input, json!(m1.w), json!(m0.w));
+            }
+            if m1.x != m0.x || m1.src != m0.src || m1.tgt != m0.tgt {
+                ok &= ctx.expect(false, check, "C09.atomic-edges", input, m1.json(), m0.json());
+            }
+            if m1.s != m0.s || m1.t != m0.t {
+                ok &= ctx.expect(false, check, "C09.atomic-interfaces", input, json!([m1.s, m1.t]), json!([m0.s, m0.t]));
+            }
+            if p1 != p0 {
+                ok &= ctx.expect(false, check, "C09.atomic-pending", input, pairs_json(p1), pairs_json(p0));
+            }
+            if ok {
+                Some(false)
+            } else {
+                None
+            }
+        }
+        Ok(Ok((q, qt))) => {
+            if bad {
+                ctx.fail(check, "C09.fails-iff-conflict", input, json!({"result": "Ok", "q": q, "after": state_json(m1, p1)}), json!("Err: a class carries two labels"));
+                return None;
+            }
+            let k = {
+                let mut reps: Vec<usize> = cls.clone();
+                reps.sort();
+                reps.dedup();
+                reps.len()
+            };
+            // the map itself
+            if q.len() != n {
+                ctx.fail(check, "C09.map-domain", input, json!(q), json!(n));
+                return None;
+            }
+            if *qt != k || m1.w.len() != k {
+                ctx.fail(check, "C09.map-codomain", input, json!({"q.target": qt, "new nodes": m1.w.len()}), json!(k));
+                return None;
+            }
+            let mut hit = vec![false; k];
+            for &v in q {
+                if v >= k {
+                    ctx.fail(check, "C09.map-range", input, json!(q), json!(k));
+                    return None;
+                }
+                hit[v] = true;
+            }
+            if hit.iter().any(|h| !h) {
+                ctx.fail(check, "C09.surjective", input, json!(q), json!(k));
+                return None;
+            }
+            for i in 0..n {
+                for j in 0..i {
+                    if (q[i] == q[j]) != (cls[i] == cls[j]) {
+                        ctx.fail(check, "C09.fibres", input, json!({"q": q, "i": i, "j": j}), json!(cls));
+                        return None;
+                    }
+                }
+            }
+            // the after-state recomputed from (before, q)
+            let mp = |l: &Vec<usize>| l.iter().map(|&v| q[v]).collect::<Vec<_>>();
+            let mut w = vec![0u8; k];
+            for i in 0..n {
+                w[q[i]] = m0.w[i];
+            }
+            let e = M {
+                w,
+                x: m0.x.clone(),
+                src: m0.src.iter().map(mp).collect(),
+                tgt: m0.tgt.iter().map(mp).collect(),
+                s: if open { mp(&m0.s) } else { vec![] },
+                t: if open { mp(&m0.t) } else { vec![] },
+            };
+            if m1.w != e.w {
+                ok &= ctx.expect(false, check, "C09.labels", input, json!({"q": q, "nodes": m1.w}), json!(e.w));
+            }
+            if m1.x != e.x || m1.src.len() != e.src.len() || m1.tgt.len() != e.tgt.len() {
+                ok &= ctx.expect(false, check, "C09.edges-untouched", input, m1.json(), e.json());
+            } else if m1.src != e.src || m1.tgt != e.tgt {
+                ok &= ctx.expect(false, check, "C09.references", input, json!({"q": q, "src": m1.src, "tgt": m1.tgt}), json!({"src": e.src, "tgt": e.tgt}));
+            }
+            if m1.s != e.s || m1.t != e.t {
+                ok &= ctx.expect(false, check, "C09.interfaces", input, json!({"q": q, "s": m1.s, "t": m1.t}), json!({"s": e.s, "t": e.t}));
+            }
+            if !p1.is_empty() {
+                ok &= ctx.expect(false, check, "C09.cleared", input, pairs_json(p1), json!([]));
+            }
+            // cross-check with the reference quotient, up to isomorphism (small cases only)
+            if ok && n <= 8 && m0.x.len() <= 4 {
+                let mut mm = m0.clone();
+                if !open {
+                    mm.s = vec![];
+                    mm.t = vec![];
+                }
+                match quotient(&mm, p0) {
+                    Some((r, _)) => {
+                        if !is_iso(m1, &r) {
+                            ok &= ctx.expect(false, check, "C09.iso-reference", input, m1.json(), r.json());
+                        }
+                    }
+                    None => {
+                        ok &= ctx.expect(false, check, "C09.iso-reference", input, m1.json(), json!("reference quotient undefined"));
+                    }
+                }
+            }
+            if ok {
+                Some(true)
+            } else {
+                None
+            }
+        }
+    }
+}
+
+fn ff_pair(r: Result<FF, FF>) -> Result<(Vec<usize>, usize), (Vec<usize>, usize)> {
+    match r {
+        Ok(q) => Ok((q.table.0, q.target)),
+        Err(q) => Err((q.table.0, q.target)),
+    }
+}
+
+fn read_hyper(h: &LH) -> (M, Pairs) {
+    M::from_lax(&lax::OpenHypergraph { sources: vec![], targets: vec![], hypergraph: h.clone() })
+}
+
+fn decode(input: &Value) -> Option<(M, Pairs)> {
+    let m = M::from_json(input.get("m")?)?;
+    let p = pairs_from_json(input.get("pairs")?)?;
+    let n = m.w.len();
+    if !m.valid() || p.iter().any(|&(a, b)| a >= n || b >= n) {
+        return None;
+    }
+    Some((m, p))
+}
+
+fn nontrivial(m: &M, p: &Pairs) -> bool {
+    p.iter().any(|&(a, b)| a != b) && (!m.x.is_empty() || m.s.len() + m.t.len() > 0)
+}
+
+/// input: {"m": model, "pairs": [[a,b]..]} — OpenHypergraph::quotient, then a second call (idempotence
+/// after success; same failure and still untouched after failure)
+fn chk_open(ctx: &mut Ctx, input: &Value) {
+    const C: &str = "quotient_open";
+    let (m, p) = match decode(input) {
+        Some(x) => x,
+        None => return,
+    };
+    ctx.case(C, input, nontrivial(&m, &p));
+    let mut f = build(&m, &p);
+    let snapshot = f.clone();
+    let before = M::from_lax(&f);
+    if before.0 != m || before.1 != p {
+        ctx.fail(C, "C09.setup", input, state_json(&before.0, &before.1), state_json(&m, &p));
+        return;
+    }
+    let res = guard(|| ff_pair(f.quotient()));
+    let after = M::from_lax(&f);
+    let verdict = judge(ctx, C, input, &before, &res, &after, true);
+    match verdict {
+        None => {}
+        Some(false) => {
+            // whole-struct equality as well (covers any field the plain reading does not look at)
+            if f != snapshot {
+                ctx.fail(C, "C09.atomic-struct", input, json!(format!("{:?}", f)), json!(format!("{:?}", snapshot)));
+            }
+            // a second attempt fails the same way and still changes nothing
+            let res2 = guard(|| ff_pair(f.quotient()));
+            let after2 = M::from_lax(&f);
+            if judge(ctx, C, input, &after, &res2, &after2, true) == Some(false) && f != snapshot {
+                ctx.fail(C, "C09.atomic-struct", input, json!(format!("{:?}", f)), json!(format!("{:?}", snapshot)));
+            }
+        }
+        Some(true) => {
+            if !f.hypergraph.is_strict() {
+                ctx.fail(C, "C09.cleared", input, json!("is_strict() == false"), json!(true));
+            }
+            let snap2 = f.clone();
+            let res2 = guard(|| ff_pair(f.quotient()));
+            let after2 = M::from_lax(&f);
+            match &res2 {
+                Ok(Ok((q2, t2))) => {
+                    let id: Vec<usize> = (0..after.0.w.len()).collect();
+                    if f != snap2 {
+                        ctx.fail(C, "C09.idempotent", input, state_json(&after2.0, &after2.1), state_json(&after.0, &after.1));
+                    } else if *q2 != id || *t2 != id.len() {
+                        // with an unchanged diagram the second map must fix every node
+                        ctx.fail(C, "C09.idempotent-map", input, json!({"q": q2, "target": t2}), json!(id));
+                    }
+                }
+                Ok(Err(_)) => ctx.fail(C, "C09.idempotent", input, json!("second quotient: Err"), json!("Ok")),
+                Err(e) => ctx.fail(C, "C09.idempotent", input, json!(format!("second quotient panicked: {}", e)), json!("Ok")),
+            }
+        }
+    }
+}
+
+/// input: {"m": model, "pairs": [[a,b]..]} — Hypergraph::quotient on the underlying hypergraph
+/// (interfaces of m are ignored)
+fn chk_hyper(ctx: &mut Ctx, input: &Value) {
+    const C: &str = "quotient_hyper";
+    let (mut m, p) = match decode(input) {
+        Some(x) => x,
+        None => return,
+    };
+    m.s = vec![];
+    m.t = vec![];
+    ctx.case(C, input, p.iter().any(|&(a, b)| a != b) && !m.x.is_empty());
+    let mut h: LH = build(&m, &p).hypergraph;
+    let snapshot = h.clone();
+    let before = read_hyper(&h);
+    let res = guard(|| ff_pair(h.quotient()));
+    let after = read_hyper(&h);
+    match judge(ctx, C, input, &before, &res, &after, false) {
+        None => {}
+        Some(false) => {
+            if h != snapshot {
+                ctx.fail(C, "C09.atomic-struct", input, json!(format!("{:?}", h)), json!(format!("{:?}", snapshot)));
+            }
+        }
+        Some(true) => {
+            let snap2 = h.clone();
+            let res2 = guard(|| ff_pair(h.quotient()));
+            let id: Vec<usize> = (0..after.0.w.len()).collect();
+            match res2 {
+                Ok(Ok((q2, t2))) if h == snap2 && q2 == id && t2 == id.len() => {}
+                other => {
+                    let a2 = read_hyper(&h);
+                    ctx.fail(C, "C09.idempotent", input, json!({"second": format!("{:?}", other), "after": state_json(&a2.0, &a2.1)}), state_json(&after.0, &after.1));
+                }
+            }
+        }
+    }
+}
+
+/// input: {"m": model, "steps": [["u",a,b] | ["q"] | ["n",label] | ["l",i,label] | ["e",label,[src],[tgt]]]}
+/// node indices in steps are reduced modulo the current number of nodes (steps naming a node are
+/// skipped while there is none); every "q" step is judged against the plain state kept alongside
+fn chk_sequence(ctx: &mut Ctx, input: &Value) {
+    const C: &str = "sequence";
+    let m = match input.get("m").and_then(M::from_json) {
+        Some(m) if m.valid() => m,
+        _ => return,
+    };
+    let steps = match input.get("steps").and_then(|s| s.as_array()) {
+        Some(s) => s.clone(),
+        None => return,
+    };
+    let nq = steps.iter().filter(|s| s[0] == "q").count();
+    ctx.case(C, input, nq >= 2 && steps.iter().any(|s| s[0] == "u"));
+    let mut f = m.to_lax();
+    let mut st: (M, Pairs) = (m, vec![]);
+    let num = |v: &Value| v.as_u64().map(|x| x as usize);
+    let list = |v: &Value| -> Option<Vec<usize>> { v.as_array()?.iter().map(|x| x.as_u64().map(|y| y as usize)).collect() };
+    for (si, step) in steps.iter().enumerate() {
+        let n = st.0.w.len();
+        match step[0].as_str() {
+            Some("u") => {
+                if let (Some(a), Some(b), true) = (num(&step[1]), num(&step[2]), n > 0) {
+                    let (a, b) = (a % n, b % n);
+                    f.unify(NodeId(a), NodeId(b));
+                    st.1.push((a, b));
+                }
+            }
+            Some("n") => {
+                if let Some(l) = num(&step[1]) {
+                    f.new_node(l as u8);
+                    st.0.w.push(l as u8);
+                }
+            }
+            Some("l") => {
+                if let (Some(i), Some(l), true) = (num(&step[1]), num(&step[2]), n > 0) {
+                    f.hypergraph.nodes[i % n] = l as u8;
+                    st.0.w[i % n] = l as u8;
+                }
+            }
+            Some("e") => {
+                if let (Some(x), Some(s), Some(t)) = (num(&step[1]), list(&step[2]), list(&step[3])) {
+                    if n > 0 || (s.is_empty() && t.is_empty()) {
+                        let s: Vec<usize> = s.iter().map(|v| v % n.max(1)).collect();
+                        let t: Vec<usize> = t.iter().map(|v| v % n.max(1)).collect();
+                        f.new_edge(x as u8, lax::Hyperedge { sources: s.iter().map(|&i| NodeId(i)).collect(), targets: t.iter().map(|&i| NodeId(i)).collect() });
+                        st.0.x.push(x as u8);
+                        st.0.src.push(s);
+                        st.0.tgt.push(t);
+                    }
+                }
+            }
+            Some("q") => {
+                let before = M::from_lax(&f);
+                if before != st {
+                    ctx.fail(C, "C09.sequence-state", input, json!({"step": si, "state": state_json(&before.0, &before.1)}), state_json(&st.0, &st.1));
+                    return;
+                }
+                let snapshot = f.clone();
+                let res = guard(|| ff_pair(f.quotient()));
+                let after = M::from_lax(&f);
+                match judge(ctx, C, input, &before, &res, &after, true) {
+                    None => return,
+                    Some(false) => {
+                        if f != snapshot {
+                            ctx.fail(C, "C09.atomic-struct", input, json!({"step": si, "after": format!("{:?}", f)}), json!(format!("{:?}", snapshot)));
+                            return;
+                        }
+                    }
+                    Some(true) => {}
+                }
+                st = after;
+            }
+            _ => {}
+        }
+    }
+}
+
+// ------------------------------------------------------------------------------------------------
+// generators
+// ------------------------------------------------------------------------------------------------
+
+/// a diagram on n nodes in which every node is referenced from every kind of place
+fn decorated(w: Vec<u8>) -> M {
+    let n = w.len();
+    let all: Vec<usize> = (0..n).collect();
+    let rev: Vec<usize> = (0..n).rev().collect();
+    M {
+        w,
+        x: vec![10, 11],
+        src: vec![all.clone(), if n > 0 { vec![n - 1, 0] } else { vec![] }],
+        tgt: vec![rev.clone(), vec![]],
+        s: all.iter().chain(all.iter()).cloned().collect(),
+        t: rev,
+    }
+}
+
+/// pair lists on n = 2^k nodes that build deep union-find trees
+fn chain_families(n: usize) -> Vec<(&'static str, Pairs)> {
+    let mut out: Vec<(&'static str, Pairs)> = vec![];
+    out.push(("chain-up", (0..n - 1).map(|i| (i, i + 1)).collect()));
+    out.push(("chain-down", (0..n - 1).rev().map(|i| (i + 1, i)).collect()));
+    out.push(("chain-up-flipped", (0..n - 1).map(|i| (i + 1, i)).collect()));
+    out.push(("star-in", (1..n).map(|i| (i, 0)).collect()));
+    out.push(("star-out", (1..n).map(|i| (n - 1, i - 1)).collect()));
+    // binomial-tree order: merge equal-sized blocks, via their first / last / mixed elements
+    for variant in 0..4 {
+        let mut p: Pairs = vec![];
+        let mut r = 1;
+        while r < n {
+            let mut i = 0;
+            while i + r < n {
+                let (a, b) = match variant {
+                    0 => (i, i + r),
+                    1 => (i + r, i),
+                    2 => (i + r - 1, i + 2 * r - 1),
+                    _ => (i + 2 * r - 1, i),
+                };
+                p.push((a, b));
+                i += 2 * r;
+            }
+            r *= 2;
+        }
+        out.push((["binomial-first", "binomial-first-flipped", "binomial-last", "binomial-mixed"][variant], p));
+    }
+    // two halves merged separately (binomial), joined by one late pair between deep leaves
+    {
+        let h = n / 2;
+        let mut p: Pairs = vec![];
+        for base in [0, h] {
+            let mut r = 1;
+            while r < h {
+                let mut i = 0;
+                while i + r < h {
+                    p.push((base + i + r, base + i));
+                    i += 2 * r;
+                }
+                r *= 2;
+            }
+        }
+        out.push(("two-halves-unjoined", p.clone()));
+        p.push((h - 1, n - 1));
+        out.push(("two-halves-joined", p));
+    }
+    // odd/even interleaving: two classes of n/2 built from long strides
+    out.push(("interleaved", (0..n - 2).map(|i| (i + 2, i)).collect()));
+    out
+}
+
+fn random_pairs(r: &mut Rng, m: &M, max_len: usize) -> Pairs {
+    let n = m.w.len();
+    if n == 0 {
+        return vec![];
+    }
+    let len = r.range(0, max_len);
+    let respect = r.below(4); // 0: ignore labels; otherwise mostly label-respecting
+    let mut p: Pairs = vec![];
+    for _ in 0..len {
+        let a = r.below(n);
+        let b = if respect > 0 && !r.chance(1, 12) {
+            let c: Vec<usize> = (0..n).filter(|&i| m.w[i] == m.w[a]).collect();
+            c[r.below(c.len())]
+        } else {
+            r.below(n)
+        };
+        p.push((a, b));
+        if r.chance(1, 6) {
+            p.push(if r.chance(1, 2) { (a, b) } else { (b, a) }); // repeated / flipped pair
+        }
+    }
+    p
+}
+
+fn random_steps(r: &mut Rng, len: usize) -> Vec<Value> {
+    let mut steps = vec![];
+    for _ in 0..len {
+        steps.push(match r.below(12) {
+            0..=4 => json!(["u", r.below(8), r.below(8)]),
+            5..=7 => json!(["q"]),
+            8 => json!(["n", r.below(2)]),
+            9 => json!(["l", r.below(8), r.below(2)]),
+            10 => {
+                let (a, b) = (r.range(0, 2), r.range(0, 2));
+                json!(["e", 12 + r.below(2), r.vec_below(a, 8), r.vec_below(b, 8)])
+            }
+            _ => json!(["u", r.below(8), r.below(8)]),
+        });
+    }
+    steps
+}
+
+fn tuples(len: usize, n: usize) -> Vec<Vec<usize>> {
+    let mut out = vec![vec![]];
+    for _ in 0..len {
+        let mut next = vec![];
+        for t in &out {
+            for v in 0..n {
+                let mut u: Vec<usize> = t.clone();
+                u.push(v);
+                next.push(u);
+            }
+        }
+        out = next;
+    }
+    out
+}
+
+pub fn run(ctx: &mut Ctx) {
+    if let Some((name, input)) = ctx.replay.clone() {
+        for (n, c) in CHECKS {
+            if *n == name {
+                c(ctx, &input);
+            }
+        }
+        return;
+    }
+    let thorough = ctx.thorough();
+    let both = |ctx: &mut Ctx, m: &M, p: &Pairs| {
+        let inp = json!({"m": m.json(), "pairs": pairs_json(p)});
+        chk_open(ctx, &inp);
+        chk_hyper(ctx, &inp);
+    };
+
+    // (a) corner models x fixed pair lists (filtered to the nodes that exist)
+    let fixed: Vec<Pairs> = vec![
+        vec![],
+        vec![(0, 0)],
+        vec![(0, 1)],
+        vec![(1, 0)],
+        vec![(0, 1), (0, 1)],
+        vec![(0, 1), (1, 0)],
+        vec![(0, 0), (1, 1), (2, 2)],
+        vec![(0, 2)],
+        vec![(2, 0), (0, 2), (2, 0), (0, 2), (2, 0)],
+        vec![(0, 1), (1, 2)],
+        vec![(1, 2), (0, 1)],
+        vec![(2, 1), (1, 0), (0, 2)],
+        vec![(0, 1); 9], // multiplicity larger than the number of nodes
+    ];
+    for m in corner_models() {
+        for p in &fixed {
+            if p.iter().all(|&(a, b)| a < m.w.len() && b < m.w.len()) {
+                both(ctx, &m, p);
+            }
+        }
+    }
+
+    // (b) exhaustive: every labelling of n <= 4 nodes over {0,1} (decorated so that every node is referenced
+    // from edges and both interfaces) x every pair list of length <= 2 (<= 3 for n <= 3; thorough: <= 3 for n = 4)
+    for n in 0..=4usize {
+        for wl in tuples(n, 2) {
+            let m = decorated(wl.iter().map(|&v| v as u8).collect());
+            let maxlen = if n <= 3 || thorough { 3 } else { 2 };
+            for len in 0..=maxlen {
+                if n == 0 && len > 0 {
+                    continue;
+                }
+                for flat in tuples(2 * len, n) {
+                    let p: Pairs = flat.chunks(2).map(|c| (c[0], c[1])).collect();
+                    if !thorough && n == 3 && len == 3 && (flat[0] > flat[1]) {
+                        continue; // quick: first pair in canonical order only
+                    }
+                    both(ctx, &m, &p);
+                }
+            }
+        }
+    }
+
+    // (c) long chains / deep trees: 8, 16, 64 (= 32 + 32) nodes, one label; then the same with one node deep
+    // inside relabelled (must fail and leave everything untouched), and with the second half relabelled
+    for n in [8usize, 16, 64] {
+        for (_name, p) in chain_families(n) {
+            let m = decorated(vec![5; n]);
+            both(ctx, &m, &p);
+            for odd in [0, n / 2 - 1, n / 2, n - 3, n - 1] {
+                let mut w = vec![5u8; n];
+                w[odd] = 6;
+                both(ctx, &decorated(w), &p);
+            }
+            let w: Vec<u8> = (0..n).map(|i| if i < n / 2 { 5 } else { 6 }).collect();
+            both(ctx, &decorated(w), &p);
+            let w: Vec<u8> = (0..n).map(|i| 5 + (i % 2) as u8).collect();
+            both(ctx, &decorated(w), &p);
+            // the same pairs listed twice and in reverse
+            let mut pp = p.clone();
+            pp.extend(p.iter().rev().map(|&(a, b)| (b, a)));
+            both(ctx, &decorated(vec![5; n]), &pp);
+        }
+    }
+
+    // (d) random diagrams with random pair lists
+    let nrand = ctx.budget(15000, 800000);
+    for i in 0..nrand {
+        let b = if i % 3 == 0 { MEDIUM } else { SMALL };
+        let mut m = random_model(&mut ctx.rng, b);
+        if ctx.rng.chance(1, 3) {
+            for l in m.w.iter_mut() {
+                *l = 0;
+            }
+        }
+        if ctx.rng.chance(1, 5) {
+            // extra isolated / dangling nodes
+            for _ in 0..ctx.rng.range(1, 3) {
+                let l = ctx.rng.below(2) as u8;
+                m.w.push(l);
+            }
+        }
+        let p = random_pairs(&mut ctx.rng, &m, 6);
+        both(ctx, &m, &p);
+    }
+    // medium-size random: 9..20 nodes, up to 30 pairs
+    for _ in 0..ctx.budget(1500, 60000) {
+        let n = ctx.rng.range(9, 20);
+        let labels = ctx.rng.range(1, 3);
+        let w: Vec<u8> = (0..n).map(|_| ctx.rng.below(labels) as u8).collect();
+        let mut m = decorated(w);
+        let ls = ctx.rng.range(0, 6);
+        m.s = ctx.rng.vec_below(ls, n);
+        let p = random_pairs(&mut ctx.rng, &m, 30);
+        both(ctx, &m, &p);
+    }
+
+    // (e) sequences of quotient calls interleaved with further unifications (and node/label/edge edits)
+    let corners = corner_models();
+    for m in &corners {
+        for steps in [
+            json!([["q"], ["q"]]),
+            json!([["u", 0, 1], ["q"], ["q"], ["u", 0, 1], ["q"]]),
+            json!([["u", 0, 1], ["u", 1, 2], ["q"], ["u", 0, 0], ["q"], ["n", 0], ["u", 0, 7], ["q"]]),
+            json!([["n", 0], ["n", 1], ["u", 0, 1], ["u", 0, 2], ["q"], ["q"], ["l", 0, 0], ["l", 1, 0], ["l", 2, 0], ["l", 3, 0], ["l", 4, 0], ["q"], ["q"]]),
+            json!([["u", 2, 0], ["q"], ["e", 12, [0, 1], [1]], ["u", 1, 0], ["q"], ["u", 0, 1], ["u", 1, 0], ["q"]]),
+        ] {
+            chk_sequence(ctx, &json!({"m": m.json(), "steps": steps}));
+        }
+    }
+    // fail, repair the label, succeed; then merge further
+    chk_sequence(
+        ctx,
+        &json!({"m": decorated(vec![0, 0, 1, 0]).json(), "steps": [["u", 0, 1], ["u", 1, 2], ["q"], ["q"], ["l", 2, 0], ["q"], ["q"], ["u", 0, 1], ["q"], ["l", 0, 1], ["u", 1, 0], ["q"]]}),
+    );
+    for _ in 0..ctx.budget(10000, 500000) {
+        let bnd = if ctx.rng.chance(1, 2) { SMALL } else { MEDIUM };
+        let mut m = random_model(&mut ctx.rng, bnd);
+        if ctx.rng.chance(1, 2) {
+            for l in m.w.iter_mut() {
+                *l = 0;
+            }
+        }
+        let len = ctx.rng.range(2, 14);
+        let steps = random_steps(&mut ctx.rng, len);
+        chk_sequence(ctx, &json!({"m": m.json(), "steps": steps}));
+    }
+
+    ctx.notes.push(format!("judged quotient calls: {} returned Ok, {} returned Err", N_OK.load(Ordering::Relaxed), N_ERR.load(Ordering::Relaxed)));
+    ctx.notes.push(
+        "rule: (diagram, list of unification pairs) evaluated on lax::OpenHypergraph::quotient and on lax::Hypergraph::quotient, each followed by a second call; \
+         exhaustive: all labellings over {0,1} of n<=4 nodes (every node referenced from two edges and both interfaces) x all pair lists of length<=2 (<=3 for n<=3; thorough also n=4); \
+         corners: 10 corner models x 13 fixed pair lists (self pairs, repeated, flipped, 9-fold multiplicity); \
+         deep trees: n in {8,16,64} x 13 pair orders (chains up/down, stars, 4 binomial-tree orders, two halves of n/2 joined late, interleaved) x {one label, one odd node at 5 positions, half/half, alternating, doubled+reversed}; \
+         random: SMALL/MEDIUM models (+dangling nodes, 1/3 single-label) with <=6 pairs biased to respect labels, and 9..20 nodes with <=30 pairs; \
+         sequences: <=14 steps of unify / quotient / new node / relabel / new edge on corner and random models; \
+         non-trivial = some pair (a,b) with a!=b and an edge or interface present (sequence: >=2 quotient steps and >=1 unify)"
+            .into(),
+    );
+}
